@@ -4,7 +4,7 @@ package c18
 //
 // The history of the world contains hand-written pointer blobs (committed with git plumbing, never produced by the clean
 // filter) whose size field is 0 (with the oid of non-empty content), 1, 2^31, 2^53+1, 2^63-1 (thorough: further boundary
-// values), and the local object store is given object files of extreme lengths (zero-length, 1 byte, a sparse 2^31-byte file,
+// values) or a decimal just beyond int64 (2^63, 2^64-1, 2^64: no valid pointer, plain content on the unchanged tree), and the local object store is given object files of extreme lengths (zero-length, 1 byte, a sparse 2^31-byte file,
 // an unreferenced object).  Every git-lfs command path that turns pointers or object files into API requests is run on it:
 // each call site in commands/ and lfs/ that constructs a transfer queue, a lock client or calls GitFilter.Smudge is discovered
 // by scanning the sources of the tree under test and must be driven by at least one path (coverage map in the evidence).
@@ -31,7 +31,8 @@ import (
 type handPtr struct {
 	Path   string
 	Oid    string
-	Size   int64  // the size field of the pointer
+	Size   int64  // the size field of the pointer (-1: the decimal written in the pointer is not representable as int64, see Text)
+	Text   string // the size field exactly as written in the pointer file
 	Real   []byte // content that hashes to Oid (nil: no such content exists anywhere: a phantom object)
 	AtHead bool   // in the tree of the tip of main (otherwise only in the first commit: an old version)
 	Label  string
@@ -39,16 +40,29 @@ type handPtr struct {
 
 type sizeSpec struct {
 	Label string
-	Size  int64
+	Size  int64  // -1: not representable as int64 (Text holds the decimal)
+	Text  string // the decimal as written in the pointer ("" = Size in decimal)
 }
 
-var sizeSpecsQuick = []sizeSpec{{"0", 0}, {"1", 1}, {"2e31", 1 << 31}, {"2e53+1", 1<<53 + 1}, {"2e63-1", 1<<63 - 1}}
+func (s sizeSpec) text() string {
+	if s.Text != "" {
+		return s.Text
+	}
+	return fmt.Sprintf("%d", s.Size)
+}
+
+// sizeSpecsOver: decimals just beyond int64 (2^63, 2^64-1, 2^64).  A pointer file carrying one of them is not a valid pointer
+// (spec.md: size is the byte size of the object; git-lfs keeps sizes in an int64); whatever git-lfs makes of such a blob, no
+// request may name an object with a negative or non-integer size.  Class "over-int64" puts the three into one history.
+var sizeSpecsOver = []sizeSpec{{"2e63", -1, "9223372036854775808"}, {"2e64-1", -1, "18446744073709551615"}, {"2e64", -1, "18446744073709551616"}}
+
+var sizeSpecsQuick = []sizeSpec{{"0", 0, ""}, {"1", 1, ""}, {"2e31", 1 << 31, ""}, {"2e53+1", 1<<53 + 1, ""}, {"2e63-1", 1<<63 - 1, ""}}
 
 // further boundary values (thorough tier): around int32 / uint32 / float64-exact / int64 limits
-var sizeSpecsMore = []sizeSpec{{"2e31-1", 1<<31 - 1}, {"2e32-1", 1<<32 - 1}, {"2e32", 1 << 32}, {"2e32+5", 1<<32 + 5}, {"2e53", 1 << 53}, {"2e53-1", 1<<53 - 1}, {"2e63-2", 1<<63 - 2}}
+var sizeSpecsMore = []sizeSpec{{"2e31-1", 1<<31 - 1, ""}, {"2e32-1", 1<<32 - 1, ""}, {"2e32", 1 << 32, ""}, {"2e32+5", 1<<32 + 5, ""}, {"2e53", 1 << 53, ""}, {"2e53-1", 1<<53 - 1, ""}, {"2e63-2", 1<<63 - 2, ""}}
 
 func sizeSpecByLabel(l string) (sizeSpec, bool) {
-	for _, s := range append(append([]sizeSpec{}, sizeSpecsQuick...), sizeSpecsMore...) {
+	for _, s := range append(append(append([]sizeSpec{}, sizeSpecsQuick...), sizeSpecsMore...), sizeSpecsOver...) {
 		if s.Label == l {
 			return s, true
 		}
@@ -57,11 +71,15 @@ func sizeSpecByLabel(l string) (sizeSpec, bool) {
 }
 
 func ptrText(oid string, size int64) string {
-	return fmt.Sprintf("version https://git-lfs.github.com/spec/v1\noid sha256:%s\nsize %d\n", oid, size)
+	return ptrTextS(oid, fmt.Sprintf("%d", size))
+}
+
+func ptrTextS(oid string, size string) string {
+	return fmt.Sprintf("version https://git-lfs.github.com/spec/v1\noid sha256:%s\nsize %s\n", oid, size)
 }
 
 func makeHand(sp sizeSpec, role string, atHead bool) handPtr {
-	h := handPtr{Path: role + "-" + sp.Label + ".bin", Size: sp.Size, AtHead: atHead, Label: sp.Label}
+	h := handPtr{Path: role + "-" + sp.Label + ".bin", Size: sp.Size, Text: sp.text(), AtHead: atHead, Label: sp.Label}
 	switch sp.Size {
 	case 0:
 		h.Real = []byte("non-empty content behind the size-0 pointer " + role + "\n")
@@ -98,6 +116,8 @@ func buildHandPointerTemplate(branch, class string) *tmpl {
 	var specs []sizeSpec
 	if class == "all" {
 		specs = sizeSpecsQuick
+	} else if class == "over-int64" {
+		specs = sizeSpecsOver
 	} else if s, ok := sizeSpecByLabel(class); ok {
 		specs = []sizeSpec{s}
 	} else {
@@ -120,6 +140,13 @@ func buildHandPointerTemplate(branch, class string) *tmpl {
 		t.asked[h.Oid] = h.Size
 		if h.Real != nil {
 			t.data[h.Oid] = h.Real
+		}
+		if h.Size < 0 {
+			// a blob that is no valid pointer is plain content of a path with filter=lfs: whenever git runs the clean filter on
+			// it (git status, checkout, merge) git-lfs may store that text as an LFS object of its own and later ask about it
+			txt := []byte(ptrTextS(h.Oid, h.Text))
+			t.asked[gitx.Oid(txt)] = int64(len(txt))
+			t.data[gitx.Oid(txt)] = txt
 		}
 	}
 	t.files = []fileSpec{{Path: "a.bin"}}
@@ -148,7 +175,7 @@ func buildHandPointerTemplate(branch, class string) *tmpl {
 		must(w.RunIn(local, nil, env, "git", "update-index", "--add", "--cacheinfo", "100644,"+sha+","+path), "update-index")
 	}
 	for _, h := range t.hand {
-		addBlob(nil, h.Path, ptrText(h.Oid, h.Size))
+		addBlob(nil, h.Path, ptrTextS(h.Oid, h.Text))
 		if h.Real != nil {
 			gitx.PutObject(lfsdir, h.Real)
 		}
@@ -181,7 +208,9 @@ func buildHandPointerTemplate(branch, class string) *tmpl {
 		for _, l := range strings.Split(strings.TrimRight(out, "\n"), "\n") {
 			ok := l == ""
 			for _, h := range t.hand {
-				if h.Size == 0 && l == " M "+h.Path {
+				// (the same holds for a blob that is no valid pointer at all: size beyond int64; and whether the clean filter of the
+				// tree under test reproduces any other hand-written pointer byte for byte is that tree's business, not a template fault)
+				if l == " M "+h.Path {
 					ok = true
 				}
 			}
@@ -194,6 +223,16 @@ func buildHandPointerTemplate(branch, class string) *tmpl {
 	if d := dirty(w.MustGit(local, "status", "--porcelain")); d != "" {
 		panic("template local is not clean: " + d)
 	}
+	// the status check above ran the clean filter over blobs that are no valid pointers (sizes beyond int64) and thereby stored
+	// their text as LFS objects: the templates start without them
+	rmCleaned := func(lfsdir string) {
+		for _, h := range t.hand {
+			if h.Size < 0 {
+				os.Remove(gitx.ObjectPath(lfsdir, gitx.Oid([]byte(ptrTextS(h.Oid, h.Text)))))
+			}
+		}
+	}
+	rmCleaned(lfsdir)
 
 	clone := w.Init("clone", false)
 	w.MustGit(clone, "remote", "add", "origin", "../remote.git")
@@ -204,13 +243,20 @@ func buildHandPointerTemplate(branch, class string) *tmpl {
 	if d := dirty(w.MustGit(clone, "status", "--porcelain")); d != "" {
 		panic("template clone is not clean: " + d)
 	}
+	rmCleaned(filepath.Join(clone, ".git", "lfs"))
+	// what the tree under test stores while git runs its filters over hand-written blobs during the construction above is its own
+	// business (a tree that accepts an out-of-range size re-encodes the pointer and cleans the result): the clone starts with an
+	// empty store whatever happened
+	for _, f := range gitx.ScanStore(filepath.Join(clone, ".git", "lfs")) {
+		os.Remove(filepath.Join(clone, ".git", "lfs", "objects", f.Rel))
+	}
 	for _, d := range [][]byte{hpA1, hpA2, hpO1} {
 		if _, err := os.Stat(gitx.ObjectPath(lfsdir, gitx.Oid(d))); err != nil {
 			panic("template: object missing from local store")
 		}
 	}
-	if n := len(gitx.ScanStore(filepath.Join(clone, ".git", "lfs"))); n != 0 {
-		panic(fmt.Sprintf("template: clone store has %d files", n))
+	if fl := gitx.ScanStore(filepath.Join(clone, ".git", "lfs")); len(fl) != 0 {
+		panic(fmt.Sprintf("template: clone store has %d files: %+v", len(fl), fl))
 	}
 	return t
 }
@@ -288,8 +334,8 @@ func mergeDriverFiles(in *inst) {
 			anc = h
 		}
 	}
-	gitx.WriteFile(in.clone, "md-cur", []byte(ptrText(cur.Oid, cur.Size)), 0644)
-	gitx.WriteFile(in.clone, "md-anc", []byte(ptrText(anc.Oid, anc.Size)), 0644)
+	gitx.WriteFile(in.clone, "md-cur", []byte(ptrTextS(cur.Oid, cur.Text)), 0644)
+	gitx.WriteFile(in.clone, "md-anc", []byte(ptrTextS(anc.Oid, anc.Text)), 0644)
 	gitx.WriteFile(in.clone, "md-oth", []byte(ptrText(gitx.Oid(hpA1), int64(len(hpA1)))), 0644)
 }
 
@@ -349,12 +395,12 @@ var sizePaths = []pathDef{
 	{Name: "git-checkout-other-branch", Dir: "download", Steps: one(clg("checkout", "-q", "other"))},
 	{Name: "lfs-smudge", Dir: "download", Steps: func(t *tmpl) []step {
 		return perPointer(t, true, func(h handPtr) step {
-			return step{Repo: "clone", Args: []string{"smudge", h.Path}, Stdin: []byte(ptrText(h.Oid, h.Size))}
+			return step{Repo: "clone", Args: []string{"smudge", h.Path}, Stdin: []byte(ptrTextS(h.Oid, h.Text))}
 		})
 	}},
 	{Name: "lfs-smudge-searchall", Dir: "download", Cfg: "[lfs \"remote\"]\n\tsearchall = true\n", Steps: func(t *tmpl) []step {
 		s := perPointer(t, false, func(h handPtr) step {
-			return step{Repo: "clone", Args: []string{"smudge", h.Path}, Stdin: []byte(ptrText(h.Oid, h.Size))}
+			return step{Repo: "clone", Args: []string{"smudge", h.Path}, Stdin: []byte(ptrTextS(h.Oid, h.Text))}
 		})
 		s[0].Pre = addBackupRemote
 		return s
@@ -445,8 +491,9 @@ func sizesPart(c *vx.Check) part {
 	for _, s := range sizeSpecsQuick {
 		classes = append(classes, s.Label)
 	}
+	classes = append(classes, "over-int64")
 	if c.Thorough() {
-		for _, s := range sizeSpecsMore {
+		for _, s := range append(append([]sizeSpec{}, sizeSpecsMore...), sizeSpecsOver...) {
 			classes = append(classes, s.Label)
 		}
 	}
@@ -458,7 +505,7 @@ func sizesPart(c *vx.Check) part {
 	if c.Thorough() {
 		ccfgs = sizeClientCfgs
 	}
-	c.Bounds["sizes"] = fmt.Sprintf("%d request paths x %d pointer-size classes %v (class all = the five quick sizes in one history) x %d server variants (phantom oids unknown to the server / stored with bogus bytes) x %d client transfer configurations; object files placed in the store by the prune and push --object-id paths: zero-length, 1 byte, 42 bytes unreferenced, sparse 2^31 bytes", len(sizePaths), len(classes), classes, len(sizeVariants), len(ccfgs))
+	c.Bounds["sizes"] = fmt.Sprintf("%d request paths x %d pointer-size classes %v (class all = the five quick sizes in one history; class over-int64 = hand-written pointers whose size field is the decimal 2^63, 2^64-1 or 2^64, all three in one history [thorough: also one class each]) x %d server variants (phantom oids unknown to the server / stored with bogus bytes) x %d client transfer configurations; object files placed in the store by the prune and push --object-id paths: zero-length, 1 byte, 42 bytes unreferenced, sparse 2^31 bytes", len(sizePaths), len(classes), classes, len(sizeVariants), len(ccfgs))
 	c.Bounds["sizes_paths"] = labels
 	return part{"sizes", func(x *vx.X) vx.Result {
 		p := sizePaths[x.In(len(sizePaths))]
@@ -717,7 +764,9 @@ func batchSizeLabels(reqs []*req) map[string]int64 {
 			lbl := "ordinary"
 			if _, present := om["size"]; !present {
 				lbl = "(size member absent)"
-			} else if n, isInt, fits := isInteger(om["size"]); isInt && fits {
+			} else if n, isInt, fits := isInteger(om["size"]); isInt && fits && n < 0 {
+				lbl = "(negative)"
+			} else if isInt && fits {
 				for _, s := range append(append([]sizeSpec{}, sizeSpecsQuick...), sizeSpecsMore...) {
 					if s.Size == n {
 						lbl = s.Label
